@@ -1,5 +1,5 @@
 import LitexModel.Event.Gpio
-import LitexProofs.Event.Basic
+import LitexProofs.Event.Bus
 /-
   C15 helper lemmas for the GPIO IRQ client: the event-manager part of `gpioIrq` runs on the derived trigger trace.
 -/
@@ -92,5 +92,45 @@ theorem gpio_trig_change {n : Nat} {gins : List GpioIn} {t k : Nat} (hk : k < n)
     simp only [prevPad, padAt, gpioInAt, gpioNextD]
     rw [range_map_getD _ _ hk]
     rfl
+
+/-! ### non-interference between pads: everything pad `k` does depends on pad `k` alone -/
+
+/-- Two GPIO inputs that agree on everything that concerns pad `k`: its synchronised value, its mode and edge bits,
+    and the bus access restricted to its bit position. -/
+def GpioAgreeOn (bw k : Nat) (i₁ i₂ : GpioIn) : Prop :=
+  i₁.pads.getD k false = i₂.pads.getD k false ∧ i₁.mode.getD k false = i₂.mode.getD k false ∧
+  i₁.edge.getD k false = i₂.edge.getD k false ∧ i₁.we = i₂.we ∧ i₁.adr = i₂.adr ∧
+  i₁.datW.testBit (k % bw) = i₂.datW.testBit (k % bw)
+
+def GpioAgreeTraces (bw k : Nat) : List GpioIn → List GpioIn → Prop
+  | [], [] => True
+  | a :: as, b :: bs => GpioAgreeOn bw k a b ∧ GpioAgreeTraces bw k as bs
+  | _, _ => False
+
+theorem gpioDerive_agree (n bw : Nat) (little : Bool) {k : Nat} (hk : k < n) :
+    ∀ (g₁ g₂ : List GpioIn) (d₁ d₂ : List Bool), GpioAgreeTraces bw k g₁ g₂ → d₁.getD k false = d₂.getD k false →
+      AgreeTraces (gpioCfg n bw little) k (gpioDerive n d₁ g₁) (gpioDerive n d₂ g₂) := by
+  intro g₁
+  induction g₁ with
+  | nil =>
+    intro g₂ d₁ d₂ h _
+    cases g₂ with
+    | nil => trivial
+    | cons _ _ => simp [GpioAgreeTraces] at h
+  | cons a as ih =>
+    intro g₂ d₁ d₂ h hd
+    cases g₂ with
+    | nil => simp [GpioAgreeTraces] at h
+    | cons b bs =>
+      obtain ⟨⟨hp, hm, he, hwe, hadr, hdat⟩, hrest⟩ := h
+      refine ⟨⟨?_, hwe, hadr, hdat⟩, ih bs _ _ hrest ?_⟩
+      · unfold In.trigOf gpioEvIn
+        simp only
+        rw [range_map_getD _ _ hk, range_map_getD _ _ hk]
+        unfold gpioTrig
+        rw [hp, hm, he, hd]
+      · unfold gpioNextD
+        rw [range_map_getD _ _ hk, range_map_getD _ _ hk]
+        exact hp
 
 end Litex.Event
